@@ -333,6 +333,24 @@ def check(run, rule):
                     tuple(f for f in non_loop[0][0][2] if str(f).isdigit())[-1:] == ("0",) and mentions(non_loop[0][0], lambda z: z[0] == "call" and z[1].endswith("Iterator>::next"))
                 if item and flag:
                     okc = True
+        if not okc:
+            # `bool_fragments.into_iter().filter(|(passed, _)| *passed).flat_map(|(_, fragments)| fragments).collect()`
+            for r in _rets(prog, p):
+                if r[0] == "call" and re.search(r"Iterator::collect$", r[1]) and r[2]:
+                    fm_ = strip(r[2][0])
+                    if fm_[0] == "call" and re.search(r"Iterator::flat_map$", fm_[1]) and len(fm_[2]) == 2:
+                        fl_ = strip(fm_[2][0])
+                        c2, _ = closure_of(strip(fm_[2][1]))
+                        if fl_[0] == "call" and re.search(r"Iterator::filter$", fl_[1]) and len(fl_[2]) == 2 and c2 in prog.bodies:
+                            c1, _ = closure_of(strip(fl_[2][1]))
+                            src_ = strip(fl_[2][0])
+                            plain_src = src_[0] == "call" and re.search(r"into_iter$|::iter$", src_[1]) and not mentions(src_, lambda z: z[0] == "call" and re.search(r"Iterator::(filter|skip|take|rev|step_by)$", z[1]))
+                            r1 = _rets(prog, c1) if c1 in prog.bodies else []
+                            r2 = _rets(prog, c2)
+                            keeps_flag = len(r1) == 1 and r1[0][0] == "param" and r1[0][1] == 2 and tuple(f for f in r1[0][2] if str(f).isdigit())[-1:] == ("0",)
+                            yields_frags = len(r2) == 1 and r2[0][0] == "param" and r2[0][1] == 2 and tuple(f for f in r2[0][2] if str(f).isdigit())[-1:] == ("1",)
+                            if plain_src and keeps_flag and yields_frags:
+                                okc = True
         good("Property::fragments = concatenation of the entries whose condition holds", p) if okc else bad("Property::fragments", p, "fold closure is not `if passed { acc.extend(fragments) }`")
     else:
         bad("Property::fragments", None, "function not found")
